@@ -109,3 +109,18 @@ func zzExpectExit()        {}
 func zzTimersActive() int  { return -1 }
 func zzTimersCreated() int { return -1 }
 func zzGoroutines() int    { return -1 }
+
+// zzFireTimer: time passes and the timer expires - natively by re-arming it with a zero duration
+// (its AfterFunc callback then runs on the runtime's timer goroutine) and waiting a moment.
+// false for a nil timer or one that is no longer armed.
+func zzFireTimer(t *time.Timer) bool {
+	if t == nil {
+		return false
+	}
+	if !t.Stop() {
+		return false // already fired or stopped
+	}
+	t.Reset(0)
+	time.Sleep(3 * time.Millisecond)
+	return true
+}
